@@ -232,6 +232,13 @@ def run(ctx, replay=None):
     traces.append(hand('middle-gap', cfg2, [('Submit', [[2, 1, 1], 'ok']), ('Submit', [[2, 2, 3], 'ok']), ('Submit', [[2, 0, 1], 'ok']),
                                             ('Reap', [100]), ('Update', [[[2, 1, 1]]]), ('SwapState', []),
                                             ('UpdateToState', [[1, 2], [1, 2]]), ('Reap', [100]), ('Submit', [[2, 1, 1], 'ok']), ('Reap', [100])]))
+    # admin requests go through the commit path in block.ExTxs (pbft createProposalBlock): committed ones must leave the pool
+    traces.append(hand('admin-committed', cfg2, [('SubmitAdmin', [[0, 1, 0], 'ok']), ('Submit', [[1, 0, 1], 'ok']), ('SubmitAdmin', [[0, 2, 0], 'ok']),
+                                                 ('Reap', [100]), ('Update', [[[0, 1, 0], [1, 0, 1]]]), ('SwapState', []),
+                                                 ('UpdateToState', [[1, 2], [1, 2]]), ('Reap', [100]),
+                                                 ('Update', [[[0, 2, 0]]]), ('SubmitAdmin', [[0, 3, 0], 'ok']),
+                                                 ('SwapState', []), ('UpdateToState', [[1, 2], [1, 2]]), ('Reap', [100]),
+                                                 ('Update', [[[0, 3, 0]]]), ('SwapState', []), ('UpdateToState', [[1, 2], [1, 2]]), ('Reap', [100])]))
     traces.append(hand('tryreplace-evicts', cfg2, [('Submit', [[1, 1, 1], 'ok']), ('Submit', [[1, 2, 1], 'ok']), ('Submit', [[1, 3, 1], 'ok']),
                                                    ('Submit', [[1, 0, 1], 'ok']), ('Submit', [[1, 3, 1], 'ok']), ('Reap', [100])]))
 
